@@ -1,5 +1,5 @@
 (* C13 — Batches are invalidated only when they can no longer execute.  Statements only. *)
-From V Require Import Base.Prelude Base.Val Num.Arith Hub.Types Hub.Model Proofs.ListX Proofs.HubInv Proofs.C13Proofs.
+From V Require Import Base.Prelude Base.Val Num.Arith Hub.Types Hub.Model Proofs.ListX Proofs.HubInv Proofs.C13Proofs Hub.Votes Hub.VotesMon Hub.VotesHeight Proofs.C13Height.
 Local Open Scope Z_scope.
 
 (* BeginBlocker's timeout sweep of a chain, from any state satisfying the structural invariant
@@ -33,3 +33,20 @@ Theorem C13_executed_exact :
         (chain <> b_minter /\ b_chain x = chain /\ b_ext x = b_ext b /\ (b_nonce x < b_nonce b)%N))).
 Proof. exact c13_executed_exact. Qed.
 Print Assumptions C13_executed_exact.
+
+(* The clock the timeout sweep reads -- the last observed external height -- is moved by the tally alone, and only to
+   the height reported by a claim it has just applied (which had the 66% quorum: C02, in nonce order: C03).  A vote,
+   whatever height it claims and whoever sends it, never moves it. *)
+Theorem C13_observed_height_only_from_applied_claims :
+  forall s o h,
+    let s' := fst (hstep s o h) in
+    hs_observed s' = hs_observed s \/
+    (o = VTally /\ exists k, In k (skipn (length (vs_applied (hs_votes s))) (vs_applied (hs_votes s'))) /\
+                             hs_observed s' = height_of (hs_heights s) k).
+Proof. exact observed_height_only_from_applied. Qed.
+Print Assumptions C13_observed_height_only_from_applied_claims.
+
+Theorem C13_height_unchanged_without_application :
+  forall s o h, vs_applied (hs_votes (fst (hstep s o h))) = vs_applied (hs_votes s) -> hs_observed (fst (hstep s o h)) = hs_observed s.
+Proof. exact height_unchanged_without_application. Qed.
+Print Assumptions C13_height_unchanged_without_application.
